@@ -51,6 +51,10 @@ def arith_stress_case(r, i):
         if op == "neg":
             return H.neg(rnd_expr(depth - 1))
         if op == "pow":
+            if r.random() < 0.35:
+                # a signed atom in parentheses as the base of a power: (-x)**2 is x**2, -x**2 is not
+                base = r.choice([H.neg(H.var(r.choice(vs))), H.num(-r.choice([1, 2, 3])), H.neg(H.num(r.choice([2, Fr(1, 2)])))])
+                return H.pw(base, r.choice([2, 2, 3, 4]))
             return H.pw(r.choice([H.var(r.choice(vs)), rnd_expr(depth - 1)]), r.choice([2, 2, 3]))
         if op == "divc":
             return H.div(rnd_expr(depth - 1), H.num(r.choice([2, 3, 4])))
